@@ -106,3 +106,36 @@ PROPS["C19"] = {
     "technique": "deterministic crash injection at every file-system syscall boundary (ptrace), old-or-new oracle through a fresh store",
     "design_ref": "DESIGN.md sections 3.7 and 7 (C19)",
 }
+
+ADV_ASSUME = ["x/crypto, std crypto, math/big, encoding/json and net/http are trusted and shared by both sides",
+              "the peer's message alphabet is the one listed in the rule; messages outside it are not explored",
+              "interleavings are explored at park-point granularity (connection operations, SetCryptographer, lock probe)"]
+
+PROPS["C01"] = {
+    "test": "TestC01", "level": "exploration", "budget": {"quick": 30, "thorough": 900},
+    "rule": "the real transport with 1..3 accessories carrying planted canaries, a legitimate controller L (paired on the wire or pre-seeded) that verifies, writes with ev:true, reads and lists on its own connection, an application goroutine setting values, and 1..3 peer connections (peer has neither setup code nor paired key) running 1..10 messages from: plaintext GET/PUT/POST to /accessories, /characteristics (read, write, ev), /pairings (add, remove, list), /resource, /identify; pair-setup start / verify with wrong proof, A=0 / key exchange sealed under the zero key, HKDF(nil), a random key, shorter than a tag; pair-verify start (valid, wrong length) and finish (wrong key, unknown name, the accessory's own name, stale material, L's captured finish replayed, wrong seal, short, bad TLV); ciphertext GET under keys the peer derives itself (own ECDH secret, zero, random) and L's captured frames replayed; a plaintext request afterwards; the scheduler interleaves all connections and decides segmentation. Oracles: no protected request is served (in plaintext or under a peer-derivable key), no canary / attribute-database key / EVENT reaches a peer connection, no callback or snapshot or subscription or stored pairing is caused by a peer, a cryptographer exists only on L's connection (invariant at every quiescent point), and L keeps working. non-trivial = at least one peer message was answered; distinct = distinct (peer knowledge, per-message kind and status) sequences",
+    "real": REAL_SYSTEM, "stub": STUB_SYSTEM, "assumptions": ADV_ASSUME,
+    "level_text": "Seeded exploration of request histories of an unprivileged peer interleaved with a legitimate controller, with black-box oracles on every byte the peer receives and white-box invariants (session map, pairing store, subscriptions, callbacks) at every quiescent point.",
+    "level_note": "Sampling over a fixed message alphabet; primitives trusted.",
+}
+PROPS["C02"] = {
+    "test": "TestC02", "level": "exploration", "budget": {"quick": 30, "thorough": 900},
+    "rule": "1..2 peer connections (peer knows the setup code in 2/3 of the scenarios) run 1..10 pair-setup messages from {start; verify with right proof / wrong proof / A=0 / A=N / A missing; key exchange genuine / tampered / shorter than a tag / sealed under the all-zero key with HKDF(nil) signature material / under HKDF(nil) / under a random key / signed by another key / signed over another name / replayed from the legitimate controller's exchange; unknown state; unknown method}, optionally while a legitimate controller pairs on a third connection (source of replay material); model: a (name, key) may be stored only once a key-exchange message was sent that the reference built from the session key of a right-proof verify request acknowledged on that connection with no start/verify since, and must be stored once its M6 arrived; invariant required <= stored <= initial + allowed with equal keys at every quiescent point; non-genuine messages must not be answered with a proof or the accessory's encrypted key exchange",
+    "real": REAL_SYSTEM, "stub": STUB_SYSTEM, "assumptions": ADV_ASSUME,
+    "level_text": "Seeded exploration of pair-setup message sequences (orders and contents) on interleaved connections against a reference that decides which key-exchange messages are genuine; the pairing store is compared with the model at every quiescent point.",
+    "level_note": "Sampling over a fixed message alphabet; 10-25 ms per run (SRP).",
+}
+PROPS["C03"] = {
+    "test": "TestC03", "level": "exploration", "budget": {"quick": 30, "thorough": 900},
+    "rule": "pairing sets of 1..3 stored controllers plus the accessory's own entity; 1..2 peer connections (peer holds a stored controller's long-term key in 2/3 of the scenarios) run 1..10 messages from {start with valid / wrong-length key; finish genuine / signed by a wrong key / unknown name / the accessory's own name / over the previous exchange's material / over reordered material / replayed from the legitimate controller / sealed under a wrong key / shorter than a tag / with a broken sub-TLV; unknown state; ciphertext GET under the peer's own ECDH key; plaintext GET afterwards}; oracles: invariant 'cryptographer present => a genuine finish was sent on this connection' at every quiescent point, a non-genuine finish is never answered with state 4 without error, no answer decrypts under a key the peer derived on a model-unverified connection",
+    "real": REAL_SYSTEM, "stub": STUB_SYSTEM, "assumptions": ADV_ASSUME,
+    "level_text": "Seeded exploration of pair-verify message sequences for several pairing sets; the model verifies a connection only on a finish message the reference built with a stored controller's secret key for the keys of the exchange in progress; checked as a state invariant and black-box (what the peer can decrypt).",
+    "level_note": "Sampling over a fixed message alphabet.",
+}
+PROPS["C13"] = {
+    "test": "TestC13", "level": "exploration", "budget": {"quick": 30, "thorough": 900},
+    "rule": "1..2 peer connections, half of the scenarios starting each connection with an honest pair-verify (hostile input after verification), run 1..10 messages from: arbitrary bodies (random bytes, truncated / over-long / duplicated TLV items, encrypted data shorter than a tag, arbitrary JSON incl. wrong types, huge numbers, deep nesting, repeated composite values, odd pairing methods) to /pair-setup, /pair-verify, /pairings, /characteristics (PUT and GET ids), /resource, /accessories, /identify, and protocol messages at every step of pair-setup and pair-verify (wrong proof, A=0, A missing, short / tampered / random key exchange, unknown state / method, short / wrong-seal / bad-TLV / unknown-name finish); oracles: every complete request is answered with a well-formed HTTP response, nothing like 'http: panic serving' appears on the captured server log, and afterwards an honest pair-verify succeeds on the same connection after at most one rejected start and an honest pair-setup + pair-verify + GET succeeds on a new connection (bounded liveness: the run must reach quiescence with every peer finished)",
+    "real": REAL_SYSTEM, "stub": STUB_SYSTEM, "assumptions": ADV_ASSUME,
+    "level_text": "Seeded exploration of hostile inputs at every reachable protocol state with a liveness epilogue; panics are observed on the captured net/http error log, wedges as a peer that never gets its answer.",
+    "level_note": "Sampling; the body generator is a fixed family of malformed shapes plus random bytes.",
+}
